@@ -8,6 +8,9 @@ NA_ALL = {
  'C15': 'Circuit shape / pinned Groth16 keys: needs Groth16 proving and pairing evaluation on concrete keys (whole-program runs through ark-groth16, no symbolic content) and a dataflow statement about arkworks\' synthesiser; no solver verdict over the real code is within reach (DESIGN §4).',
 }
 CHECKS = {
+ 'C05': dict(level='proof', technique='symbolic execution of the MIR with branch merging over the free cyclic group (ladders: z3 LIA/BV over all limb values), free-abelian-group interpretation of the Mul forms and MSM stub, ground SMT chain for the group order',
+      text='Both ladders of the minimal backend are executed on the MIR for slices of 1..=5 symbolic limbs (all 2^320 values; vartime branches merged) and the accumulated multiple is shown equal to sum limb_i 2^(64 i) by z3; every Mul/MulAssign impl, mul_bigint and the multiscalar stub (0..=3 pairs, unequal lengths) are shown to be k*P / the sum of products in the free abelian group; [r]GENERATOR = identity and GENERATOR != identity as a checked ground addition chain.',
+      note='Trusted: ark-ec scalar multiplication for inner points, group axioms, r prime, C04 for each ladder step. Bounds: <= 5 limbs, <= 3 (5) MSM pairs.', ref='§3 C05'),
  'C08': dict(level='proof', technique='path enumeration of the MIR (POLY domain) for ==, the identity predicates and Hash against their specified meaning; z3 identities / certificates for the hashed encodings',
       text='For both builds every path of PartialEq::eq is shown to answer exactly X1*Y2 == Y1*X2 (and true between a point, its rescaling and its coset shift); is_identity, Zero::is_zero, AffineRepr::is_zero, == IDENTITY and == default() answer exactly X == 0; Hash feeds the hasher only the encoding bytes, shown identical for the rescaled, plain and coset-shifted representative.',
       note='Trusted: arkworks inner-point behaviour, contract S + scaling lemma, MIR semantics; Decaf injectivity for the "iff same encoding" direction.', ref='§3 C08'),
